@@ -95,7 +95,13 @@ def init_mimetypes_once(config):
     _mime_inited = key
 
 
+_ENV0 = dict(os.environ)
+
+
 def reset_globals():
+    if dict(os.environ) != _ENV0:
+        os.environ.clear()
+        os.environ.update(_ENV0)
     HandlerMultiplexer.handlers = None
     HandlerMultiplexer.rootpath = None
     hbase.rootpath = None
@@ -383,9 +389,12 @@ def get_protocol(config, line, rest=b"", tls=False):
 
 def snapshot_globals():
     return (HandlerMultiplexer.handlers, HandlerMultiplexer.rootpath, hbase.rootpath,
-            gopherentry.mapping, gopherentry.eaexts, hUMN.extstrip)
+            gopherentry.mapping, gopherentry.eaexts, hUMN.extstrip, dict(os.environ))
 
 
 def restore_globals(s):
     (HandlerMultiplexer.handlers, HandlerMultiplexer.rootpath, hbase.rootpath,
-     gopherentry.mapping, gopherentry.eaexts, hUMN.extstrip) = s
+     gopherentry.mapping, gopherentry.eaexts, hUMN.extstrip, env) = s
+    if dict(os.environ) != env:
+        os.environ.clear()
+        os.environ.update(env)
